@@ -106,7 +106,16 @@ fn generated(seed: u64, n: usize) -> Vec<(String, fun::syntax::program::CheckedP
 pub fn cmd_fun2core(seed: u64, n: usize, dirs: &[String], out: &mut dyn std::io::Write) {
     let mut rng = Rng::new(seed);
     let mut all_dirs = crate::pipe::default_dirs();
-    all_dirs.extend(dirs.iter().cloned());
+    // extra directories: a relative path that does not exist in the current directory is taken
+    // relative to the framework root (the parent of `corpus/fun`, see pipe::default_dirs)
+    let root = all_dirs.last().and_then(|d| std::path::Path::new(d).parent().and_then(|p| p.parent()).map(|p| p.to_path_buf()));
+    for d in dirs {
+        let p = Path::new(d);
+        if p.is_relative() && !p.exists() {
+            if let Some(r) = &root { all_dirs.push(r.join(p).to_string_lossy().to_string()); continue; }
+        }
+        all_dirs.push(d.clone());
+    }
     let mut files = crate::pipe::collect_sc(&all_dirs);
     files.sort();
     files.dedup();
